@@ -500,6 +500,11 @@ def binop_model(I, op, a, b, inplace=False):
         return a + b
     if isinstance(a, SetVal) and isinstance(b, SetVal) and tn == "BitOr":
         return a.union(b)
+    from .interp import Obj
+    if isinstance(a, Obj) and a.kind is not None and tn == "Div":
+        fn = I.models.get(a.kind + ".__truediv__")
+        if fn is not None:
+            return fn(I, a, b)
     if hasattr(a, "pyvc_binop"):
         return a.pyvc_binop(I, tn, b, False)
     if hasattr(b, "pyvc_binop"):
